@@ -13,45 +13,75 @@ import os
 from fractions import Fraction
 
 from . import common
+from . import extract_c13
 
 PROP = "C13"
 INFO = dict(
-    technique="Lean 4 proof (index logic of crop / slicing path / sampling path / set_patches over an executable "
-              "flat-array model, every dimension and channel count) + bit-exact model/implementation "
-              "correspondence + independent numpy-slicing oracle on the real image classes",
-    level_text="Theorems over an executable model of Image.crop, extract_patches_with_slice, "
-               "extract_patches_by_sampling (sampler abstract), _centered_patch and set_patches: the crop is exactly "
-               "the block p + clamp(floor(min)) in any number of dimensions with landmarks registered; the repaired "
-               "raise-or-clip decision clips iff constraining is allowed, refuses otherwise and never alters an "
-               "in-bounds request (the coded `or` is refuted by witness); both patch paths return "
-               "(centres, offsets, C, ph, pw) for every C (the coded reshape(3, ...) provably fails for every C != 3); "
-               "at integer centres/offsets the two paths agree pixel for pixel, outside pixels are the fill value, and "
-               "set_patches restores interior windows.  The model is tied to /repo by running the real classes on "
-               "generated cases (all image classes, 1-5 channels, 7 dtypes, 2-D/3-D crops, each side separately, "
-               "odd/even/non-square patches, centres inside/near/beyond borders, integer and fractional) and diffing "
-               "whole arrays, landmarks and error kinds against the Lean driver.",
+    technique="Lean 4 proof (index logic of crop and its wrappers / slicing path / sampling path with concrete "
+              "order-0/1 constant/nearest samplers / set_patches over an executable flat-array model, every "
+              "dimension and channel count) + bit-exact model/implementation correspondence through the public "
+              "entry points + entry-point table regenerated from the live classes + independent numpy-slicing "
+              "oracle on the real image classes",
+    level_text="Theorems over an executable model of Image.crop, crop_to_pointcloud / crop_to_landmarks (and their "
+               "_proportion variants), MaskedImage.crop_to_true_mask, extract_patches (dispatch on order / mode), "
+               "extract_patches_with_slice, extract_patches_by_sampling, _centered_patch, the order-0/1 "
+               "constant/nearest samplers, extract_patches_around_landmarks, the list format and set_patches: the "
+               "crop is exactly the block p + clamp(floor(min)) in any number of dimensions with landmarks "
+               "registered; the repaired raise-or-clip decision clips iff constraining is allowed, refuses "
+               "otherwise and never alters an in-bounds request (the coded `or` is refuted by witness); the box a "
+               "point set requests contains the pixel of every point except those on the whole-valued maximum "
+               "when boundary = 0; every extraction path returns (centres, offsets, C, ph, pw) for every C, order "
+               "and mode (the coded reshape(3, ...) provably fails for every C != 3); order 1 is the bilinear "
+               "formula and reproduces the samples, 'constant' fills outside, 'nearest' is sampling at the clamped "
+               "location; at integer centres/offsets the slicing path and the sampling path of order 0 and 1 agree "
+               "pixel for pixel, outside pixels are the fill value, and set_patches restores interior windows - "
+               "also through the public defaults and the list format.  For arbitrary centres the round trip is "
+               "characterised exactly: it holds iff int() and np.round pick the same pixel (fractional part < 1/2 "
+               "for non-negative coordinates), otherwise the write-back is the image shifted by one pixel; with "
+               "np.round in set_patches it holds everywhere away from ties.  The model is tied to /repo by running "
+               "the real classes on generated cases (all image classes, 1-5 channels, 7 dtypes, 2-D/3-D crops, "
+               "each side separately, wrappers with omitted arguments, images born from earlier crops / patch "
+               "lists / set_patches, odd/even/non-square patches, centres inside/near/beyond borders, integer and "
+               "fractional, zero centres, list and array formats) and diffing whole arrays, landmarks and error "
+               "kinds against the Lean driver, and by a regenerated table of suppliers, parameters and defaults.",
     level_note="Trusted: Lean kernel; axioms propext/Classical.choice/Quot.sound; the Python harness and the driver's "
-               "parser; numpy basic slicing/broadcasting, np.round (half to even), np.clip, np.floor/ceil, reshape and "
-               "transpose semantics are modelled (Core/C13NDArr.lean, Core/C13Crop.lean, Core/PyData.lean) and "
-               "exercised by the correspondence, not verified; scipy.ndimage.map_coordinates is a contract parameter "
-               "of the sampling-path theorems (its order-0/1, constant/nearest behaviour is modelled for the driver "
-               "and checked against scipy on every run).",
-    rule="a case = one call configuration (class, dtype, channels, shape, bounds or centres/offsets/patch shape, flags); "
+               "parser; numpy basic slicing/broadcasting, np.round (half to even), np.clip, np.floor/ceil, np.min/max, "
+               "reshape and transpose semantics are modelled (Core/C13NDArr.lean, Core/C13Crop.lean, Core/C13Api.lean, "
+               "Core/PyData.lean) and exercised by the correspondence, not verified; scipy.ndimage.map_coordinates is "
+               "a contract parameter of the layout theorems; its order-0/1, constant/nearest behaviour is the model "
+               "`sampleRat`, about which the sampler theorems are proved and which is checked against scipy on every "
+               "run; inspect.signature / the MRO as read by harness/extract_c13.py.",
+    rule="a case = one call configuration (class, dtype, channels, shape, previous life of the image, entry point, "
+         "bounds or centres/offsets/patch shape, flags, omitted arguments); "
          "distinct = distinct parameter tuple; non-trivial = crop request not equal to the whole image / patch request "
          "with at least one centre and a patch of more than one pixel",
-    partial=["round-trip clause: proved and checked for integer-valued interior centres (the quantifier of the property "
-             "assigns fractional centres to the per-path comparison); at fractional centres set_patches truncates "
-             "(int()) while extraction rounds, so write-back lands one pixel off for fractional parts >= 0.5 - "
-             "recorded as an observation in the evidence (distribution key note:roundtrip-fractional-*), not judged",
-             "order-1 / mode='nearest' sampling: layout theorem is generic in the sampler; the concrete sampler models "
-             "are correspondence-checked only",
-             "crop_to_pointcloud_proportion / crop_to_landmarks_proportion are not exercised (float proportion "
-             "arithmetic outside the exact-rational policy); they delegate to crop_to_pointcloud"],
+    partial=["decision recorded - set_patches at fractional centres: set_patches truncates (int()) while extraction "
+             "rounds (np.round).  Theorems: the round trip holds exactly where the two agree "
+             "(set_extract_roundtrip_coded, truncZ_eq_round_iff: non-negative coordinate with fractional part < 1/2), "
+             "otherwise the written block is the source shifted by one pixel (set_extract_shifted, "
+             "set_extract_not_restored); with np.round in set_patches it holds at every centre away from ties "
+             "(set_extract_roundtrip_repaired).  Read against the property text the round-trip clause stands under "
+             "'at integer centres and offsets' and the quantifier assigns fractional centres to the per-path "
+             "reference comparison, so the behaviour is OUTSIDE the quantifier and is not judged: it is counted "
+             "(distribution keys note:roundtrip-fractional-*), its prediction by the theorems is compared with the "
+             "real code on every fractional case, and the one-line repair is proposed as a side finding "
+             "(notes/fixes/C13-set-patches-rounding.diff; extract_patches_around_landmarks followed by "
+             "set_patches_around_landmarks on real, fractional landmarks moves patches by one pixel)",
+             "decision recorded - last row / column of crop_to_pointcloud / crop_to_landmarks / crop_to_true_mask: a "
+             "point whose coordinate is whole and equal to the maximum (boundary 0) lies on the far edge of the crop "
+             "and its own pixel row is cut (for crop_to_true_mask: the last true row and column).  This IS the block "
+             "between floored minimum and ceiled maximum the property text prescribes, and menpo's tests pin it "
+             "(test_crop_to_pointcloud: a 0..50 box crops to 50x50), so it is no violation; stated as theorems "
+             "(request_contains, pointcloud_axes_contain, true_mask_axes_contain) and counted (note:last-row-cut:*)",
+             "interpolation orders 2-5 and modes 'reflect' / 'wrap' of map_coordinates are not modelled (the layout "
+             "theorem is generic in the sampler; the property names nearest-neighbour/constant for the path clause)",
+             "the _proportion wrappers are exercised with dyadic proportions and coordinates only (float product "
+             "exact); other proportions differ from the exact-rational model by float rounding of the boundary"],
     assumptions=["inputs are small integers / dyadic rationals so float64 arithmetic in the implementation is exact",
                  "sampling-path cases avoid rounding ties of scipy (coordinate + 1/2 integral)",
                  "OpenCV is not installed in this environment, so warp_to_shape takes the scipy path"],
     design_ref="DESIGN.md section 6, C13")
-IMPORTS = ["MenpoModel.Props.C13"]
+IMPORTS = ["MenpoModel.Props.C13", "MenpoModel.GenProps.C13"]
 THEOREMS = [
     "MenpoModel.C13.crop_spec",
     "MenpoModel.C13.crop_exact",
@@ -69,6 +99,46 @@ THEOREMS = [
     "MenpoModel.C13.outside_is_fill",
     "MenpoModel.C13.sample0c_outside",
     "MenpoModel.C13.set_extract_roundtrip",
+    # set_patches vs extraction at arbitrary centres (Lemmas/C13Set.lean)
+    "MenpoModel.C13.round_sub_trunc",
+    "MenpoModel.C13.truncZ_eq_round_iff",
+    "MenpoModel.C13.setOne_window",
+    "MenpoModel.C13.set_extract_roundtrip_centres",
+    "MenpoModel.C13.set_extract_roundtrip_coded",
+    "MenpoModel.C13.set_extract_roundtrip_repaired",
+    "MenpoModel.C13.set_extract_shifted",
+    "MenpoModel.C13.set_extract_not_restored",
+    # samplers (Lemmas/C13Sampler.lean)
+    "MenpoModel.C13.sample1_bilinear",
+    "MenpoModel.C13.bilinear_weights",
+    "MenpoModel.C13.sampleRat_at_integer",
+    "MenpoModel.C13.sampleRat_outside",
+    "MenpoModel.C13.sample_nearest_eq_clamp",
+    "MenpoModel.C13.clampRat_range",
+    "MenpoModel.C13.sample0_nearest_is_pixel",
+    "MenpoModel.C13.nearest_eq_constant_inside",
+    "MenpoModel.C13.slice_eq_sampling_at_integers_orders",
+    # public entry points (Lemmas/C13Api.lean)
+    "MenpoModel.C13.request_contains",
+    "MenpoModel.C13.pointcloud_axes_contain",
+    "MenpoModel.C13.true_mask_axes_contain",
+    "MenpoModel.C13.crop_to_pointcloud_spec",
+    "MenpoModel.C13.cropToPointcloudProportion_eq",
+    "MenpoModel.C13.extractPatches_dispatch",
+    "MenpoModel.C13.extractPatches_shape",
+    "MenpoModel.C13.extractAroundLandmarks_eq",
+    "MenpoModel.C13.extractPatches_orders_agree",
+    "MenpoModel.C13.patch_list_roundtrip",
+    "MenpoModel.C13.setPatchesApi_list",
+    "MenpoModel.C13.landmarks_roundtrip_api",
+    # histories (Lemmas/C13Seq.lean)
+    "MenpoModel.C13.crop_sequence_exact",
+    "MenpoModel.C13.crop_sequence_landmarks",
+    # regenerated entry-point table (GenProps/C13.lean)
+    "MenpoModel.C13.GenProps.entries_ok",
+    "MenpoModel.C13.GenProps.kernels_shared",
+    "MenpoModel.C13.GenProps.defaults_ok",
+    "MenpoModel.C13.GenProps.around_landmarks_params",
 ]
 
 DTYPES = ["uint8", "uint16", "int32", "int64", "float32", "float64", "bool"]
@@ -102,12 +172,23 @@ def make_mask(spatial, a):
 
 
 def build_image(case):
-    """the menpo image of a case dict (keys cls, C, spatial, dtype, pa, pb, [ma], [lms])"""
+    """the menpo image of a case dict (keys cls, C, spatial, dtype, pa, pb, [ma], [lms], [pre]).
+    `pre` gives the image a previous life: born from the crop of a larger image (landmarks and mask carried
+    through that crop), from one entry of a patch list (`as_single_array=False`: a view into the single array),
+    or from an earlier set_patches."""
     np = np_()
     from menpo.image import Image, MaskedImage, BooleanImage
     from menpo.shape import PointCloud
     cls = case["cls"]
     spatial = tuple(case["spatial"])
+    pre = case.get("pre") or {}
+    lo = [0] * len(spatial)
+    if pre.get("kind") == "crop":
+        lo = list(pre["lo"])
+        spatial = tuple(n + a + b for n, a, b in zip(spatial, pre["lo"], pre["hi"]))
+    elif pre.get("kind") == "patch":
+        lo = list(pre["lo"])
+        spatial = tuple(n + a + b for n, a, b in zip(spatial, pre["lo"], pre["hi"]))
     if cls == "BooleanImage":
         px = make_pixels(1, spatial, "bool", case["pa"], case["pb"])
         img = BooleanImage(px[0])
@@ -118,7 +199,20 @@ def build_image(case):
         px = make_pixels(case["C"], spatial, case["dtype"], case["pa"], case["pb"])
         img = Image(px)
     if case.get("lms"):
-        img.landmarks["g"] = PointCloud(np.array(case["lms"], dtype=float))
+        img.landmarks["g"] = PointCloud(np.array(case["lms"], dtype=float) + np.array(lo, dtype=float))
+    if pre.get("kind") == "crop":
+        img = img.crop(np.array(lo, dtype=float), np.array([a + n for a, n in zip(lo, case["spatial"])], dtype=float))
+    elif pre.get("kind") == "patch":
+        ph, pw = case["spatial"]
+        ctr = np.array([[lo[0] + ph // 2, lo[1] + pw // 2]], dtype=float)
+        lms = img.landmarks["g"] if img.has_landmarks else None
+        img = img.extract_patches(PointCloud(ctr), patch_shape=(ph, pw), as_single_array=False)[0]
+        if lms is not None:
+            img.landmarks["g"] = PointCloud(lms.points - np.array(lo, dtype=float))
+    elif pre.get("kind") == "set":
+        ph, pw = pre["patch"]
+        blk = np.full((1, 1, img.n_channels, ph, pw), 1 if img.pixels.dtype == bool else pre["value"]).astype(img.pixels.dtype)
+        img = img.set_patches(blk, PointCloud(np.array([pre["centre"]], dtype=float)))
     return img
 
 
@@ -159,6 +253,8 @@ def err_kind(e):
         return "index"
     if isinstance(e, ValueError):
         return "value"
+    if isinstance(e, ZeroDivisionError):
+        return "zerodiv"
     return "other:" + type(e).__name__
 
 
@@ -178,24 +274,52 @@ def crop_reference(spatial, mn, mx):
     return lo, hi, inside, clo, chi
 
 
+CROP_DEFAULT_CONSTRAIN = {"crop": False, "crop_list": False, "pointcloud": True, "landmarks": True,
+                          "pointcloud_prop": True, "landmarks_prop": True, "true_mask": True}
+CROP_SITE = {"crop": "crop", "crop_list": "crop", "pointcloud": "crop_to_pointcloud", "landmarks": "crop_to_landmarks",
+             "pointcloud_prop": "crop_to_pointcloud_proportion", "landmarks_prop": "crop_to_landmarks_proportion",
+             "true_mask": "crop_to_true_mask"}
+
+
 def call_crop(img, case):
+    """the public call of the case; with case['omit'] every argument that has a default is left out (the
+    generator then gives the case the default values, which the model applies from its own table)"""
     np = np_()
+    from menpo.shape import PointCloud
     how = case.get("how", "crop")
-    c = bool(case["constrain"])
+    omit = bool(case.get("omit"))
+    kw = {} if omit else {"constrain_to_boundary": bool(case["constrain"])}
     if how == "crop":
-        return img.crop(np.array(case["mn"], dtype=float), np.array(case["mx"], dtype=float),
-                        constrain_to_boundary=c)
+        return img.crop(np.array(case["mn"], dtype=float), np.array(case["mx"], dtype=float), **kw)
     if how == "crop_list":
-        return img.crop(list(case["mn"]), list(case["mx"]), constrain_to_boundary=c)
+        return img.crop(list(case["mn"]), list(case["mx"]), **kw)
+    if how in ("pointcloud", "landmarks", "true_mask") and not omit:
+        kw["boundary"] = case["boundary"]
+    if how in ("pointcloud_prop", "landmarks_prop") and not omit:
+        kw["minimum"] = bool(case["minimum"])
     if how == "pointcloud":
-        from menpo.shape import PointCloud
-        return img.crop_to_pointcloud(PointCloud(np.array(case["pc"], dtype=float)), boundary=case["boundary"],
-                                      constrain_to_boundary=c)
+        return img.crop_to_pointcloud(PointCloud(np.array(case["pc"], dtype=float)), **kw)
     if how == "landmarks":
-        return img.crop_to_landmarks(group="g", boundary=case["boundary"], constrain_to_boundary=c)
+        return img.crop_to_landmarks(group="g", **kw)
+    if how == "pointcloud_prop":
+        return img.crop_to_pointcloud_proportion(PointCloud(np.array(case["pc"], dtype=float)), case["proportion"], **kw)
+    if how == "landmarks_prop":
+        return img.crop_to_landmarks_proportion(case["proportion"], group="g", **kw)
     if how == "true_mask":
-        return img.crop_to_true_mask(boundary=case["boundary"], constrain_to_boundary=c)
+        return img.crop_to_true_mask(**kw)
     raise ValueError(how)
+
+
+def cloud_of(case):
+    return case["pc"] if case.get("how") in ("pointcloud", "pointcloud_prop") else case["lms"]
+
+
+def proportion_boundary(case):
+    """oracle arithmetic of the _proportion wrappers: proportion x smallest / largest per-axis range"""
+    pts = cloud_of(case)
+    d = len(pts[0])
+    rng = [max(Fraction(p[k]) for p in pts) - min(Fraction(p[k]) for p in pts) for k in range(d)]
+    return Fraction(case["proportion"]) * (min(rng) if case["minimum"] else max(rng))
 
 
 def crop_request(img, case):
@@ -204,9 +328,9 @@ def crop_request(img, case):
     how = case.get("how", "crop")
     if how in ("crop", "crop_list"):
         return [Fraction(x) for x in case["mn"]], [Fraction(x) for x in case["mx"]]
-    if how in ("pointcloud", "landmarks"):
-        pts = case["pc"] if how == "pointcloud" else case["lms"]
-        b = Fraction(case["boundary"])
+    if how in ("pointcloud", "landmarks", "pointcloud_prop", "landmarks_prop"):
+        pts = cloud_of(case)
+        b = Fraction(case["boundary"]) if how in ("pointcloud", "landmarks") else proportion_boundary(case)
         d = len(pts[0])
         return ([min(Fraction(p[k]) for p in pts) - b for k in range(d)],
                 [max(Fraction(p[k]) for p in pts) + b for k in range(d)])
@@ -227,8 +351,8 @@ def run_crop_case(ctx, case, lines, cid):
     """implementation + oracle for one crop case; appends model request lines; returns {line id: impl reply}"""
     np = np_()
     from menpo.image.base import ImageBoundaryError
-    site = "C13/" + {"crop": "crop", "crop_list": "crop", "pointcloud": "crop_to_pointcloud",
-                     "landmarks": "crop_to_landmarks", "true_mask": "crop_to_true_mask"}[case.get("how", "crop")]
+    how = case.get("how", "crop")
+    site = "C13/" + CROP_SITE[how]
     rp = {"kind": "crop", "case": case, "python": crop_python(case)}
     img = build_image(case)
     src = img.pixels.copy()
@@ -244,7 +368,10 @@ def run_crop_case(ctx, case, lines, cid):
         out, err = None, e
     ek = err_kind(err) if err is not None else None
     ctx.count("crop:" + case["cls"])
+    ctx.count("crop-entry:" + CROP_SITE[how] + ("/defaults" if case.get("omit") else ""))
     ctx.count("crop-dims:%d" % len(spatial))
+    if case.get("pre"):
+        ctx.count("previous-life:" + case["pre"]["kind"])
     failed = False
     if degenerate:
         ctx.count("crop-outcome:degenerate-request")
@@ -290,6 +417,15 @@ def run_crop_case(ctx, case, lines, cid):
             if not np.array_equal(img.pixels, src):
                 failed = True
                 ctx.fail(site + ".source", "source-mutated", "crop modified the source image", rp)
+            # observation (decision recorded in INFO['partial']): pixels of the points on the whole-valued maximum
+            if how in ("pointcloud", "landmarks", "pointcloud_prop", "landmarks_prop") and inside:
+                cut = any(not (l <= math.floor(Fraction(p[k])) < h)
+                          for p in cloud_of(case) for k, (l, h) in enumerate(zip(blo, bhi)))
+                ctx.count("note:last-row-cut:%s:%s" % (CROP_SITE[how], "yes" if cut else "no"))
+            if how == "true_mask" and inside:
+                idx = np.argwhere(img.mask.pixels[0])
+                cut = any(not (l <= int(i[k]) < h) for i in idx for k, (l, h) in enumerate(zip(blo, bhi)))
+                ctx.count("note:last-row-cut:crop_to_true_mask:%s" % ("yes" if cut else "no"))
     else:
         ctx.count("crop-outcome:must-refuse")
         sides = ("low" if any(l < 0 for l in lo) else "") + ("high" if any(h > n for h, n in zip(hi, spatial)) else "")
@@ -313,17 +449,38 @@ def run_crop_case(ctx, case, lines, cid):
     obs[cid + ".decision"] = decision
     if not failed:
         lms = case.get("lms") or []
-        lm_s = "%d %s" % (len(lms), " ".join(rats(p) for p in lms))
-        lines.append("%s.px crop r %s 0 %s %s %s %s" % (cid, c, arr_in(src), rats(mn), rats(mx), lm_s))
+
+        def model_line(arr, with_lms):
+            """the entry point of the case on `arr`, as a driver request: the model receives the raw arguments
+            (point set, boundary / proportion, mask) and derives the request itself"""
+            lm_s = "%d %s" % (len(lms), " ".join(rats(p) for p in lms)) if with_lms else "0"
+            if how in ("crop", "crop_list"):
+                return "crop r %s 0 %s %s %s %s" % (c, arr_in(arr), rats(mn), rats(mx), lm_s)
+            if how in ("pointcloud", "landmarks"):
+                pts = cloud_of(case)
+                return "pcrop r %s 0 %s %d %s %s %s" % (c, arr_in(arr), len(pts), " ".join(rats(p) for p in pts),
+                                                       common.fq(case["boundary"]), lm_s)
+            if how in ("pointcloud_prop", "landmarks_prop"):
+                pts = cloud_of(case)
+                return "pprop r %s 0 %s %d %s %s %s %s" % (c, arr_in(arr), len(pts), " ".join(rats(p) for p in pts),
+                                                          common.fq(case["proportion"]),
+                                                          "1" if case["minimum"] else "0", lm_s)
+            return "tmask r %s 0 %s %s %d %s" % (c, arr_in(arr), arr_in(img.mask.pixels), int(case["boundary"]), lm_s)
+
+        lines.append("%s.px %s" % (cid, model_line(src, True)))
         if err is not None:
             obs[cid + ".px"] = "err " + ek
         else:
             got_l = out.landmarks["g"].points if (case.get("lms") and out.has_landmarks) else np.zeros((0,))
             obs[cid + ".px"] = norm_reply("ok " + arr_out(out.pixels) + " L " + " ".join(
                 common.fq(x) for x in got_l.ravel().tolist()))
+        if how in ("pointcloud_prop", "landmarks_prop"):
+            obs[cid + ".px"] = "B %s %s" % (common.fq(float(proportion_boundary(case))), obs[cid + ".px"])
         if case["cls"] == "MaskedImage":
-            lines.append("%s.mk crop r %s 0 %s %s %s 0" % (cid, c, arr_in(img.mask.pixels), rats(mn), rats(mx)))
+            lines.append("%s.mk %s" % (cid, model_line(img.mask.pixels, False)))
             obs[cid + ".mk"] = ("err " + ek) if err is not None else norm_reply("ok " + arr_out(out.mask.pixels) + " L")
+            if how in ("pointcloud_prop", "landmarks_prop"):
+                obs[cid + ".mk"] = "B %s %s" % (common.fq(float(proportion_boundary(case))), obs[cid + ".mk"])
     return obs
 
 
@@ -380,6 +537,21 @@ def gen_image_params(rng, dims=None, classes=("Image", "MaskedImage", "BooleanIm
     return case
 
 
+def add_previous_life(rng, case):
+    """with probability 1/4 the image of the case is not freshly constructed (call after the spatial shape is final)"""
+    r = rng.random()
+    d = len(case["spatial"])
+    if r < 0.12:
+        case["pre"] = {"kind": "crop", "lo": [rng.randint(0, 2) for _ in range(d)], "hi": [rng.randint(0, 2) for _ in range(d)]}
+    elif r < 0.19 and d == 2 and case["cls"] == "Image":
+        case["pre"] = {"kind": "patch", "lo": [rng.randint(0, 2), rng.randint(0, 2)], "hi": [rng.randint(0, 2), rng.randint(0, 2)]}
+    elif r < 0.25 and d == 2:
+        H, W = case["spatial"]
+        case["pre"] = {"kind": "set", "patch": [rng.randint(1, 3), rng.randint(1, 3)],
+                       "centre": [rng.randint(1, H - 2), rng.randint(1, W - 2)], "value": rng.choice([5, 77, 250])}
+    return case
+
+
 def gen_crop_case(rng):
     case = gen_image_params(rng)
     spatial = case["spatial"]
@@ -401,14 +573,16 @@ def gen_crop_case(rng):
     case["cats"] = cats
     case["constrain"] = rng.random() < 0.4
     case["how"] = "crop" if rng.random() < 0.9 else "crop_list"
+    if not case["constrain"] and rng.random() < 0.3:
+        case["omit"] = True      # constrain_to_boundary left to its default (False)
     if rng.random() < 0.5:
         case["lms"] = [[rng.randint(0, 4 * (n - 1)) / 4.0 for n in spatial] for _ in range(rng.randint(1, 3))]
-    return case
+    return add_previous_life(rng, case)
 
 
 def gen_derived_crop_case(rng):
-    """crop_to_pointcloud / crop_to_landmarks / crop_to_true_mask"""
-    how = rng.choice(["pointcloud", "landmarks", "true_mask"])
+    """crop_to_pointcloud / crop_to_landmarks / their _proportion variants / crop_to_true_mask"""
+    how = rng.choice(["pointcloud", "landmarks", "true_mask", "pointcloud_prop", "landmarks_prop"])
     case = gen_image_params(rng, classes=("MaskedImage",) if how == "true_mask" else ("Image", "MaskedImage", "BooleanImage"))
     spatial = case["spatial"]
     case["how"] = how
@@ -429,9 +603,24 @@ def gen_derived_crop_case(rng):
         for a in range(len(spatial)):
             if max(p[a] for p in pts) - min(p[a] for p in pts) < 1:
                 pts[0][a], pts[1][a] = 0.5, float(spatial[a] - 1)
+        if rng.random() < 0.35:   # whole-valued extreme points inside the image: the last row / column question
+            k2 = rng.randrange(len(spatial))
+            pts[0][k2] = float(rng.randint(0, max(0, spatial[k2] - 2)))
+            pts[1][k2] = float(rng.randint(int(pts[0][k2]) + 1, spatial[k2] - 1)) if spatial[k2] >= 2 else pts[1][k2]
         case["boundary"] = rng.choice([0, 0, 1, 0.5, 2])
-        case["pc" if how == "pointcloud" else "lms"] = pts
-    return case
+        if how.endswith("_prop"):
+            del case["boundary"]
+            case["proportion"] = rng.choice([0, 0.125, 0.25, 0.5, 1.0, -0.125])
+            case["minimum"] = rng.random() < 0.6
+        case["pc" if how.startswith("pointcloud") else "lms"] = pts
+    if rng.random() < 0.3:        # every argument with a default omitted
+        case["omit"] = True
+        case["constrain"] = True
+        if "boundary" in case:
+            case["boundary"] = 0
+        if "minimum" in case:
+            case["minimum"] = True
+    return add_previous_life(rng, case)
 
 
 # ------------------------------------------------------------------------------------------ patches
@@ -443,7 +632,8 @@ def grid_coord(ph, a):
 def patch_reference(pix, centres, offs, ph, pw, cval, rule):
     """oracle: for every patch pixel, the set of admissible values (1 or 2 of them).
     rule = 'slice' (nearest pixel index decides inside/outside), 'sample' (coordinate in [0, n-1] decides),
-    'either' (rim pixels may be the nearest pixel or the fill value)."""
+    'either' (rim pixels may be the nearest pixel or the fill value), 'nearest' (mode='nearest', order 0:
+    the pixel nearest to the clamped location)."""
     np = np_()
     C, H, W = pix.shape
     fill = np.asarray(cval).astype(pix.dtype)
@@ -461,7 +651,12 @@ def patch_reference(pix, centres, offs, ph, pw, cval, rule):
                     near_in = 0 <= ir <= H - 1 and 0 <= iq <= W - 1
                     coord_in = 0 <= sr <= H - 1 and 0 <= sq <= W - 1
                     v_pix = pix[:, ir, iq] if near_in else fill
-                    if rule == "slice":
+                    if rule == "nearest":
+                        # mode='nearest': the location is clamped to [0, n-1] first, so no pixel is ever filled
+                        cr = min(max(sr, 0), H - 1)
+                        cq = min(max(sq, 0), W - 1)
+                        a = b = pix[:, math.floor(cr + HALF), math.floor(cq + HALF)]
+                    elif rule == "slice":
                         a = b = v_pix
                     elif rule == "sample":
                         a = b = (v_pix if coord_in else fill)
@@ -488,25 +683,46 @@ def patch_inputs(case):
     return img, centres, offs, offs_arr
 
 
-def call_extract(img, case, centres, offs_arr, path):
-    """path: 'api-slice' (Image.extract_patches default order/mode), 'fn-slice', 'fn-sample0',
-    'api-order1', 'api-nearest'"""
+API_PATHS = {"api-slice": (0, "constant"), "api-order1": (1, "constant"), "api-nearest": (0, "nearest"),
+             "api-order1-nearest": (1, "nearest")}
+
+
+def call_extract(img, case, centres, offs_arr, path, as_single_array=True):
+    """path: 'api-slice' (Image.extract_patches, default order/mode), 'api-order1', 'api-nearest',
+    'api-order1-nearest' (same entry point, other order / mode), 'api-lms' (extract_patches_around_landmarks),
+    'fn-slice', 'fn-sample0' (the two functions of menpo.image.patches).  With case['omit'] every argument
+    that has its default value is left out of the call."""
     np = np_()
     from menpo.shape import PointCloud
     from menpo.image.patches import extract_patches_with_slice, extract_patches_by_sampling
     ps = tuple(case["patch_shape"])
     cv = float(case["cval"])
     pc = np.array(centres, dtype=float).reshape(-1, 2)
-    if path == "api-slice":
-        return img.extract_patches(PointCloud(pc), patch_shape=ps, sample_offsets=offs_arr, cval=cv)
+    omit = bool(case.get("omit"))
+    if path in API_PATHS or path == "api-lms":
+        kw = {"patch_shape": ps}
+        if not (omit and offs_arr is None):
+            kw["sample_offsets"] = offs_arr
+        if not (omit and as_single_array):
+            kw["as_single_array"] = as_single_array
+        if path == "api-lms":
+            work = img.copy()
+            work.landmarks["centres"] = PointCloud(pc)
+            return work.extract_patches_around_landmarks(group="centres", **kw)
+        order, mode = API_PATHS[path]
+        if not (omit and order == 0):
+            kw["order"] = order
+        if not (omit and mode == "constant"):
+            kw["mode"] = mode
+        if not (omit and cv == 0.0):
+            kw["cval"] = cv
+        return img.extract_patches(PointCloud(pc), **kw)
     if path == "fn-slice":
         return extract_patches_with_slice(img.pixels, pc, ps, offs_arr, cval=cv)
     if path == "fn-sample0":
+        if omit:
+            return extract_patches_by_sampling(img.pixels, pc, ps, offs_arr, cval=cv)
         return extract_patches_by_sampling(img.pixels, pc, ps, offs_arr, order=0, mode="constant", cval=cv)
-    if path == "api-order1":
-        return img.extract_patches(PointCloud(pc), patch_shape=ps, sample_offsets=offs_arr, order=1, cval=cv)
-    if path == "api-nearest":
-        return img.extract_patches(PointCloud(pc), patch_shape=ps, sample_offsets=offs_arr, mode="nearest", cval=cv)
     raise ValueError(path)
 
 
@@ -531,12 +747,19 @@ def run_patch_case(ctx, case, lines, cid):
     ctx.count("patch-channels:%d" % C)
     ctx.count("patch-centres:" + ("integer" if integer else "tie" if tie else "fractional"))
     ctx.count("patch-shape:%s%s" % ("odd" if ph % 2 else "even", "odd" if pw % 2 else "even"))
+    ctx.count("patch-n-centres:%s" % ("0" if n == 0 else "1+"))
+    if case.get("pre"):
+        ctx.count("previous-life:" + case["pre"]["kind"])
+    if case.get("omit"):
+        ctx.count("patch-entry:defaults-omitted")
     obs, results = {}, {}
     for path in case["paths"]:
         rp = {"kind": "patch", "case": case, "path": path, "python": patch_python(case)}
-        site = "C13/extract_patches." + ("slicing" if "slice" in path else "sampling")
-        if tie and path != "fn-slice" and path != "api-slice":
+        site = "C13/extract_patches." + ("slicing" if ("slice" in path or path == "api-lms") else "sampling")
+        if tie and path not in ("fn-slice", "api-slice", "api-lms"):
             continue   # scipy's tie rule is not part of the property (quantifier: away from rounding ties)
+        # extract_patches_around_landmarks forwards no fill value: its patches are filled with 0
+        cval_path = 0 if path == "api-lms" else case["cval"]
         try:
             out = call_extract(img, case, centres, offs_arr, path)
             err = None
@@ -560,9 +783,9 @@ def run_patch_case(ctx, case, lines, cid):
                 failed = True
                 ctx.fail(site + ".dtype", "dtype-changed", "%s returned dtype %s from %s pixels" % (
                     path, out.dtype, pix.dtype), rp)
-            elif path in ("api-slice", "fn-slice", "fn-sample0"):
+            elif path in ("api-slice", "fn-slice", "fn-sample0", "api-lms"):
                 rule = "slice" if integer else "either"
-                a, b = patch_reference(pix, centres, offs_eff, ph, pw, case["cval"], rule)
+                a, b = patch_reference(pix, centres, offs_eff, ph, pw, cval_path, rule)
                 good = (out == a) | (out == b)
                 if not bool(np.all(good)):
                     failed = True
@@ -570,10 +793,20 @@ def run_patch_case(ctx, case, lines, cid):
                     ctx.fail(site + ".pixels", "pixel-differs" if integer else "pixel-differs-fractional",
                              "%s: patch element %s is %r; the source pixel / fill value there is %r" % (
                                  path, w, out[w].item(), a[w].item()), dict(rp, index=list(w)))
+            elif path == "api-nearest" and H > 0 and W > 0:
+                # order 0, mode='nearest' (fractional centres away from ties included): clamp, then nearest pixel
+                a, _ = patch_reference(pix, centres, offs_eff, ph, pw, case["cval"], "nearest")
+                good = (out == a)
+                if not bool(np.all(good)):
+                    failed = True
+                    w = tuple(int(x) for x in np.argwhere(~good)[0])
+                    ctx.fail(site + ".pixels", "nearest-mode-pixel-differs",
+                             "%s: patch element %s is %r, the pixel nearest to the clamped location is %r" % (
+                                 path, w, out[w].item(), a[w].item()), dict(rp, index=list(w)))
             elif integer:
                 # interpolation reproduces the samples at integer locations; constant mode fills outside
                 a, _ = patch_reference(pix, centres, offs_eff, ph, pw, case["cval"], "slice")
-                if path == "api-nearest":
+                if path in ("api-nearest", "api-order1-nearest"):
                     inside_only = patch_reference(pix, centres, offs_eff, ph, pw, 0, "slice")[0] == \
                         patch_reference(pix, centres, offs_eff, ph, pw, 1, "slice")[0]
                     good = (out == a) | ~inside_only
@@ -595,13 +828,17 @@ def run_patch_case(ctx, case, lines, cid):
             continue
         offs_s = "N" if offs is None else pts_in(offs)
         cv = common.fq(np.asarray(case["cval"]).astype(pix.dtype).item())
-        if "slice" in path:
+        if path in API_PATHS:      # the public entry point: the model decides between slicing and sampling
+            order, mode = API_PATHS[path]
+            lines.append("%s.%s api r %d %s %s %s %d %d %s %s" % (
+                cid, path, order, mode[0], arr_in(pix), pts_in(centres), ph, pw, offs_s, cv))
+        elif path == "api-lms":
+            lines.append("%s.%s lms %s %s %d %d %s" % (cid, path, arr_in(pix), pts_in(centres), ph, pw, offs_s))
+        elif path == "fn-slice":
             lines.append("%s.%s slice %s %s %d %d %s %s" % (cid, path, arr_in(pix), pts_in(centres), ph, pw, offs_s, cv))
         else:
-            order = 1 if path == "api-order1" else 0
-            mode = "n" if path == "api-nearest" else "c"
-            lines.append("%s.%s samp r %d %s %s %s %d %d %s %s" % (
-                cid, path, order, mode, arr_in(pix), pts_in(centres), ph, pw, offs_s, cv))
+            lines.append("%s.%s samp r 0 c %s %s %d %d %s %s" % (
+                cid, path, arr_in(pix), pts_in(centres), ph, pw, offs_s, cv))
         obs["%s.%s" % (cid, path)] = ("err " + err_kind(err)) if err is not None else norm_reply("ok " + arr_out(out))
     # ---- path equivalence at integer centres and offsets
     if integer and "fn-sample0" in results and not results["fn-sample0"][2]:
@@ -615,11 +852,9 @@ def run_patch_case(ctx, case, lines, cid):
                              {"kind": "patch", "case": case, "path": sp, "python": patch_python(case)})
     # ---- list format is the same data
     if case.get("as_list") and "api-slice" in results and results["api-slice"][0] is not None and not tie:
-        from menpo.shape import PointCloud
+        lst = None
         try:
-            lst = img.extract_patches(PointCloud(np.array(centres, dtype=float).reshape(-1, 2)),
-                                      patch_shape=(ph, pw), sample_offsets=offs_arr, as_single_array=False,
-                                      cval=float(case["cval"]))
+            lst = call_extract(img, case, centres, offs_arr, "api-slice", as_single_array=False)
             single = results["api-slice"][0]
             ok = len(lst) == n * k and all(np.array_equal(lst[i * k + j].pixels, single[i, j])
                                            for i in range(n) for j in range(k))
@@ -628,6 +863,12 @@ def run_patch_case(ctx, case, lines, cid):
         ctx.check(ok, "C13/extract_patches.list-format", "list-differs-from-array",
                   "as_single_array=False does not return the n*k patches of the single array in order",
                   {"kind": "patch", "case": case, "path": "api-slice", "python": patch_python(case)})
+        if ok and not results["api-slice"][2]:
+            ctx.count("patch-path:api-list")
+            lines.append("%s.list list r 0 c %s %s %d %d %s %s" % (
+                cid, arr_in(pix), pts_in(centres), ph, pw, "N" if offs is None else pts_in(offs),
+                common.fq(np.asarray(case["cval"]).astype(pix.dtype).item())))
+            obs[cid + ".list"] = norm_reply("ok %d ; " % len(lst) + " ; ".join(arr_out(x.pixels) for x in lst))
     return obs
 
 
@@ -666,7 +907,7 @@ def gen_patch_case(rng, force_channels=None):
     ph, pw = rng.choice([1, 2, 3, 3, 4, 5]), rng.choice([1, 2, 2, 3, 4, 5])
     case["patch_shape"] = [ph, pw]
     kind = rng.choice(["integer"] * 6 + ["frac"] * 3 + ["tie"])
-    n = rng.randint(1, 3)
+    n = rng.randint(1, 3) if rng.random() > 0.03 else 0     # now and then no centre at all
     centres = []
     for _ in range(n):
         if kind == "integer":
@@ -687,13 +928,20 @@ def gen_patch_case(rng, force_channels=None):
     paths = ["api-slice", "fn-sample0"]
     if rng.random() < 0.3:
         paths.append("fn-slice")
-    if case["dtype"] in ("float32", "float64") and rng.random() < 0.6:
+    # order 1: exact in the model for float pixels anywhere, for integer / boolean pixels at integer locations
+    if (case["dtype"] in ("float32", "float64") or kind == "integer") and rng.random() < 0.6:
         paths.append("api-order1")
+        if rng.random() < 0.4:
+            paths.append("api-order1-nearest")
     if rng.random() < 0.35:
         paths.append("api-nearest")
+    if rng.random() < 0.3:
+        paths.append("api-lms")
     case["paths"] = paths
     case["as_list"] = rng.random() < 0.3
-    return case
+    if rng.random() < 0.25:
+        case["omit"] = True
+    return add_previous_life(rng, case)
 
 
 # ------------------------------------------------------------------------------------------ set_patches
@@ -706,6 +954,23 @@ def window(c, o, ph):
 def set_python(case):
     return ("from harness import c13; c13.run_set_case(ctx, case, [], '0')  # extract at case['centres'], damage the "
             "windows, set_patches(offset=case['offsets'][oi], offset_index=oi) must restore the image")
+
+
+def frac_part(x):
+    return Fraction(x) - math.floor(Fraction(x))
+
+
+def round_half_even(x):
+    x = Fraction(x)
+    f, d = math.floor(x), x - math.floor(x)
+    return f if d < HALF else f + 1 if d > HALF else (f if f % 2 == 0 else f + 1)
+
+
+def trunc_agrees(x):
+    """int(x) == np.round(x) away from ties (theorem truncZ_eq_round_iff)"""
+    x = Fraction(x)
+    d = frac_part(x)
+    return (x >= 0 and d < HALF) or (x < 0 and (d == 0 or d > HALF))
 
 
 def run_set_case(ctx, case, lines, cid):
@@ -721,19 +986,41 @@ def run_set_case(ctx, case, lines, cid):
     rp = {"kind": "set", "case": case, "python": set_python(case)}
     pc = PointCloud(np.array(centres, dtype=float).reshape(-1, 2))
     integer = all(float(x).is_integer() for c in centres for x in c)
-    wins = [(window(c[0], off[0], ph), window(c[1], off[1], pw)) for c in centres] if integer else None
-    interior = integer and all(0 <= r0 and r1 <= H and 0 <= c0 and c1 <= W for (r0, r1), (c0, c1) in wins)
+    route = case.get("route", "centres")     # 'landmarks': the *_around_landmarks pair of entry points
+    # windows extraction reads (np.round) and set_patches writes (int()), by the oracle's own arithmetic
+    xs = [(Fraction(c[0]) + off[0], Fraction(c[1]) + off[1]) for c in centres]
+    ties = any(frac_part(x) == HALF for xy in xs for x in xy)
+    rd = [((round_half_even(x) - ph // 2, round_half_even(x) - ph // 2 + ph),
+           (round_half_even(y) - pw // 2, round_half_even(y) - pw // 2 + pw)) for x, y in xs]
+    wins = rd if not ties else None     # the windows extraction reads; they are what gets damaged below
+    inside = all(0 <= r0 and r1 <= H and 0 <= c0 and c1 <= W for (r0, r1), (c0, c1) in rd)
+    interior = integer and inside
+    agree = all(trunc_agrees(x) and trunc_agrees(y) for x, y in xs)
     ctx.count("set:" + ("integer-interior" if interior else "integer-border" if integer else "fractional"))
+    ctx.count("set-route:" + route + ("/list" if case.get("as_list") else "/array"))
+    if case.get("pre"):
+        ctx.count("previous-life:" + case["pre"]["kind"])
     obs = {}
+
+    def extract(single):
+        if route == "landmarks":
+            work = img.copy()
+            work.landmarks["centres"] = pc
+            return work.extract_patches_around_landmarks(group="centres", patch_shape=(ph, pw),
+                                                         sample_offsets=offs_arr, as_single_array=single)
+        return img.extract_patches(pc, patch_shape=(ph, pw), sample_offsets=offs_arr, as_single_array=single,
+                                   cval=float(case["cval"]))
+
     try:
-        patches = img.extract_patches(pc, patch_shape=(ph, pw), sample_offsets=offs_arr, cval=float(case["cval"]))
+        patches = extract(True)
     except Exception as e:
-        ctx.fail("C13/extract_patches.slicing.shape", "raises-" + type(e).__name__,
-                 "extraction before the round trip raised %s" % type(e).__name__, rp)
+        if not ties:
+            ctx.fail("C13/extract_patches.slicing.shape", "raises-" + type(e).__name__,
+                     "extraction before the round trip raised %s" % type(e).__name__, rp)
         return obs
     # damage the windows (so that a set_patches that writes nothing, or elsewhere, is seen)
     damaged = img.copy()
-    if integer:
+    if wins is not None:
         for (r0, r1), (c0, c1) in wins:
             damaged.pixels[:, max(r0, 0):max(r1, 0), max(c0, 0):max(c1, 0)] = (
                 np.asarray(1 if pix.dtype == bool else 250).astype(pix.dtype))
@@ -750,10 +1037,13 @@ def run_set_case(ctx, case, lines, cid):
         kw["offset_index"] = oi
     arg = patches
     if case.get("as_list"):
-        arg = img.extract_patches(pc, patch_shape=(ph, pw), sample_offsets=offs_arr, as_single_array=False,
-                                  cval=float(case["cval"]))
+        arg = extract(False)
     try:
-        back = damaged.set_patches(arg, pc, **kw)
+        if route == "landmarks":
+            damaged.landmarks["centres"] = pc
+            back = damaged.set_patches_around_landmarks(arg, group="centres", **kw)
+        else:
+            back = damaged.set_patches(arg, pc, **kw)
         err = None
     except Exception as e:
         back, err = None, e
@@ -771,15 +1061,45 @@ def run_set_case(ctx, case, lines, cid):
                          "patches extracted at interior integer centres %s (offset %s) and written back do not "
                          "restore the image (%d pixels differ, first at %s)" % (
                              centres, off, len(bad), bad[0].tolist() if len(bad) else None), rp)
+            if type(back) is not type(img):
+                failed = True
+                ctx.fail("C13/set_patches.class", "class-changed", "set_patches on %s returned %s" % (
+                    type(img).__name__, type(back).__name__), rp)
             if not np.array_equal(damaged.pixels, dam_px):
                 failed = True
                 ctx.fail("C13/set_patches.receiver", "receiver-mutated", "set_patches modified the image it was called on", rp)
-    elif not integer and err is None and back is not None:
-        ctx.count("note:roundtrip-fractional-" + ("restored" if np.array_equal(back.pixels, pix) else "not-restored"))
-    if not failed and not case.get("as_list"):
-        lines.append("%s.set set %s %s %s %d %d %d" % (cid, arr_in(patches), arr_in(dam_px), pts_in(centres),
-                                                        int(off[0]), int(off[1]), oi))
+    elif not integer and not ties and err is None and back is not None:
+        # outside the property's quantifier (decision in INFO['partial']): counted, and the prediction of
+        # set_extract_roundtrip_coded (restored wherever int() and np.round agree and the windows are inside)
+        # is compared with the real code
+        restored = bool(np.array_equal(back.pixels, pix))
+        ctx.count("note:roundtrip-fractional-%s-%s" % ("agree" if agree else "disagree",
+                                                       "restored" if restored else "not-restored"))
+        if inside and not restored:
+            # integrator's decision: "writing extracted interior patches back restores the image" is not restricted
+            # to whole-pixel centres by the property text; /repo was repaired (set_patches rounds like extraction)
+            failed = True
+            ctx.fail("C13/set_patches.roundtrip", "fractional-centre-not-restored",
+                     "patches extracted at interior sub-pixel centres %s (offset %s, away from rounding ties) and written "
+                     "back do not restore the image: set_patches and extract_patches address different windows" % (
+                         centres, off), rp)
+        elif agree and inside and not restored:
+            ctx.mismatch("set-roundtrip-prediction",
+                         "fractional centres %s (offset %s) on which int() and np.round agree: theorem "
+                         "set_extract_roundtrip_coded predicts a restored image, the implementation differs" % (
+                             centres, off), dict(rp, op="set-roundtrip-prediction"))
+    if not failed:
+        pat = ("L %d %s" % (len(arg), " ".join(arr_in(x.pixels) for x in arg))) if case.get("as_list") \
+            else "A " + arr_in(patches)
+        off_s = "%d %d" % (int(off[0]), int(off[1])) if "offset" in kw else "N"
+        oi_s = "%d" % oi if "offset_index" in kw else "N"
+        lines.append("%s.set setapi c %s %s %s %s %s" % (cid, pat, arr_in(dam_px), pts_in(centres), off_s, oi_s))
         obs[cid + ".set"] = ("err " + err_kind(err)) if err is not None else norm_reply("ok " + arr_out(back.pixels))
+        if not integer:
+            # fractional centres are outside the property's quantifier: the placement of the proposed repair
+            # (np.round, notes/fixes/C13-set-patches-rounding.diff) is accepted as well; which one the tree has is noted
+            lines.append("%s.setr setapi r %s %s %s %s %s" % (cid, pat, arr_in(dam_px), pts_in(centres), off_s, oi_s))
+            obs[cid + ".set"] = "?placement " + obs[cid + ".set"]
     return obs
 
 
@@ -800,6 +1120,10 @@ def gen_set_case(rng):
         off = case["offsets"][case["oi"]]
     case["offset_form"] = rng.choice(["tuple", "array"])
     kind = rng.choice(["interior"] * 7 + ["border", "frac", "frac"])
+    # fractional centres: all on the side where int() and np.round agree, all on the other side, or mixed
+    fkind = rng.choice(["agree", "disagree", "mixed"])
+    fr_r = {"agree": [0.125, 0.25, 0.375], "disagree": [0.625, 0.75, 0.875], "mixed": [0.25, 0.625, 0.75]}[fkind]
+    fr_c = {"agree": [0.0, 0.25, 0.375], "disagree": [0.0, 0.625, 0.875], "mixed": [0.0, 0.375, 0.875]}[fkind]
     centres = []
     for _ in range(rng.randint(1, 3)):
         if kind == "interior":
@@ -807,12 +1131,15 @@ def gen_set_case(rng):
         elif kind == "border":
             centres.append([gen_centre(rng, H, ph, "near"), gen_centre(rng, W, pw, rng.choice(["near", "interior"]))])
         else:
-            centres.append([gen_centre(rng, H, ph, "interior") - off[0] + rng.choice([0.25, 0.625, 0.75]),
-                            gen_centre(rng, W, pw, "interior") - off[1] + rng.choice([0.0, 0.375, 0.875])])
+            centres.append([gen_centre(rng, H, ph, "interior") - off[0] + rng.choice(fr_r),
+                            gen_centre(rng, W, pw, "interior") - off[1] + rng.choice(fr_c)])
     case["centres"] = centres
     case["cval"] = gen_cval(rng, case["dtype"])
-    case["as_list"] = rng.random() < 0.2
-    return case
+    case["as_list"] = rng.random() < 0.25
+    if rng.random() < 0.3:       # extract_patches_around_landmarks / set_patches_around_landmarks (fill value 0)
+        case["route"] = "landmarks"
+        case["cval"] = 0
+    return add_previous_life(rng, case)
 
 
 # ------------------------------------------------------------------------------------------ driving
@@ -832,7 +1159,7 @@ def nontrivial(kind, case):
 
 def generate(rng, i):
     r = i % 20
-    if r < 8:
+    if r < 7:
         return "crop", gen_crop_case(rng)
     if r < 10:
         return "crop", gen_derived_crop_case(rng)
@@ -856,6 +1183,7 @@ def search(ctx):
 
 def compare(ctx, model, obs, cases):
     decisive = {"coded": 0, "repaired": 0, "neither": 0}
+    placement = {"int()": 0, "np.round": 0, "neither": 0}
     for key, impl in obs.items():
         cid = key.split(".")[0]
         kind, case = cases[cid]
@@ -870,12 +1198,26 @@ def compare(ctx, model, obs, cases):
             if model.get(key, "").startswith("err"):
                 ctx.count("note:sampling-path-matches-coded-reshape")
             continue
+        if impl.startswith("?placement "):
+            impl = impl[len("?placement "):]
+            mc, mr = norm_reply(model.get(key, "<no reply>")), norm_reply(model.get(key + "r", "<no reply>"))
+            if mc != mr:
+                placement["int()" if impl == mc else "np.round" if impl == mr else "neither"] += 1
+            if impl not in (mc, mr):
+                ctx.mismatch("set", "model (int() placement) %r / (np.round placement) %r vs implementation %r" % (
+                    mc[:120], mr[:120], impl[:120]), {"kind": kind, "case": case, "op": key})
+            continue
         got = norm_reply(model.get(key, "<no reply>"))
         if got != impl:
             ctx.mismatch(key.split(".", 1)[1] if "." in key else key,
                          "model %r vs implementation %r" % (got[:160], impl[:160]),
                          {"kind": kind, "case": case, "op": key})
     ctx.notes["crop_decision_discriminating_cases"] = decisive
+    ctx.notes["set_patches_placement_discriminating_cases"] = placement
+    if placement["int()"] or placement["np.round"]:
+        ctx.notes["set_patches_placement_observed"] = (
+            "int() (as coded)" if not placement["np.round"] else
+            "np.round (repaired)" if not placement["int()"] else "mixed")
     if decisive["coded"] or decisive["repaired"]:
         ctx.notes["crop_decision_variant_observed"] = (
             "coded (or)" if decisive["coded"] and not decisive["repaired"] else
@@ -899,13 +1241,35 @@ def corpus(ctx, lines, obs, cases):
         ctx.case(("corpus", os.path.basename(path)), nontrivial=True)
 
 
+def generated(ctx):
+    """regenerate the entry-point table from the live classes and re-check its obligations (DESIGN 2.3b)"""
+    ok = common.build_generated(ctx, extract_c13.lean_files(), extract_c13.TARGETS, extract_c13.N_OBLIGATIONS)
+    ctx.count("entry-point-table:" + ("ok" if ok else "BROKEN"))
+    ctx.notes["entry_point_rows"] = len(extract_c13.table())
+
+
+def prepare(ctx):
+    """regenerate the table and its obligations, build, audit.  When the regenerated obligations no longer check
+    (recorded in ctx.broken_obligations: a finding about /repo, not an infrastructure error) the audit covers the
+    hand-written theorems only, since GenProps/C13.olean does not exist then."""
+    generated(ctx)
+    if ctx.broken_obligations:
+        imports = [m for m in IMPORTS if "GenProps" not in m]
+        theorems = [t for t in THEOREMS if ".GenProps." not in t]
+    else:
+        imports, theorems = IMPORTS, THEOREMS
+    common.prepare_lean(ctx, PROP, imports, theorems)
+
+
 def run(ctx):
-    common.prepare_lean(ctx, PROP, IMPORTS, THEOREMS)
+    prepare(ctx)
     ctx.trusted.extend([
         "numpy basic slicing / assignment broadcasting, np.round half-to-even, np.clip, reshape, transpose "
         "(modelled in Core/C13NDArr.lean, Core/C13Crop.lean; exercised bit-for-bit by the correspondence)",
         "scipy.ndimage.map_coordinates: contract parameter of sampling_patch_layout; order-0 constant-mode model "
-        "(outside iff a coordinate < 0 or > n-1, else floor(x + 1/2)) checked against scipy on every run"])
+        "(outside iff a coordinate < 0 or > n-1, else floor(x + 1/2)) and order-1 model (multilinear, 'nearest' = "
+        "clamp) checked against scipy on every run; the sampler theorems are about these models",
+        "inspect.signature / class MRO as read by harness/extract_c13.py (regenerated entry-point table)"])
     rng = ctx.rng
     n = ctx.n(2000, 24000)
     lines, obs, cases = [], {}, {}
@@ -932,7 +1296,7 @@ def replay(ctx, path):
         return 2
     if rp.get("path"):
         case = dict(case, paths=[rp["path"]] + (["fn-sample0"] if rp["path"] != "fn-sample0" else []))
-    common.prepare_lean(ctx, PROP, IMPORTS, THEOREMS)
+    prepare(ctx)
     lines = []
     obs = RUNNERS[kind](ctx, case, lines, "k0")
     ctx.case(signature(kind, case), nontrivial=True, sample={"kind": kind, "case": case})
